@@ -7,11 +7,15 @@ pre-history of the process (unrelated queries built, simplifier counter advanced
 populated) and the builds to perform.
 """
 import ast
+import atexit
 import base64
 import json
 import linecache
+import os
 import pickle
+import shutil
 import sys
+import tempfile
 import types
 
 
@@ -45,6 +49,17 @@ def plain(n):
 
 
 LAYOUTS = 4
+_SLOT_WRITES = [0]
+_SCRATCH = []
+
+
+def _scratch():
+    if not _SCRATCH:
+        base = os.environ.get("TMPDIR") or tempfile.gettempdir()
+        _SCRATCH.append(tempfile.mkdtemp(prefix="verif-node-", dir=base))
+        atexit.register(shutil.rmtree, _SCRATCH[0], ignore_errors=True)
+    return _SCRATCH[0]
+
 
 
 def lift_constants(lam_text, prefix):
@@ -208,10 +223,23 @@ def build(b, datasets, func_adl, simplify_chained_calls, fn_form):
     s = ds
     if mode == "callable" and len(lam_stages) == len(stages):
         tag = b["id"]
-        src = render(stages, b.get("layout", 0), tag, lift=bool(b.get("lift")))
-        fn = f"<nodedisk>/build_{tag}.py"
-        linecache.cache[fn] = (len(src), None, src.splitlines(True), fn)
+        if b.get("slot") is not None:
+            # a REAL source file that is edited and re-loaded during the life of the process:
+            # the same path (and mostly the same line numbers) holds another query each time
+            tag = "slot"
+            src = render(stages, b.get("layout", 0), tag, lift=bool(b.get("lift")))
+            fn = os.path.join(_scratch(), f"slot_{b['slot']}.py")
+            with open(fn, "w") as f:
+                f.write(src)
+            _SLOT_WRITES[0] += 1
+            t = 1.6e9 + 100.0 * _SLOT_WRITES[0]
+            os.utime(fn, (t, t))
+        else:
+            src = render(stages, b.get("layout", 0), tag, lift=bool(b.get("lift")))
+            fn = f"<nodedisk>/build_{tag}.py"
+            linecache.cache[fn] = (len(src), None, src.splitlines(True), fn)
         m = types.ModuleType(f"build_{tag}")
+        m.__file__ = fn
         exec(compile(src, fn, "exec"), m.__dict__)
         s = getattr(m, f"build_{tag}")(ds)
     else:
